@@ -147,7 +147,8 @@ pub fn run(cfg: Cfg) -> i32 {
                 }
                 // ---- the specification must agree with std String (else the spec is wrong)
                 let failed = r.cls == "err" || (r.cls == "panic" && r.msg == "reserve");
-                if !failed && last.op != "write_display" {
+                let exp_failed = exp_c["cls"] == "err" || (exp_c["cls"] == "panic" && exp_c["msg"] == "reserve");
+                if !failed && !exp_failed && last.op != "write_display" {
                     let std = recs.last().unwrap().2.clone();
                     let mut bad = false;
                     for h in 0..nh {
